@@ -182,3 +182,42 @@ def parseWithRecovery (g : Grammar) (la rmatch : Nat) (w : List Nat) (sfuel : Na
   parseRecLoop g g.analysis la rmatch full sfuel (full.length + 2) 0 [s0] [] 0
 
 end Yaep
+
+namespace Yaep
+
+/-- can the tokens `full[s ..]` be shifted from the list `cpl` for `need` matches (or up to
+and including the end marker if fewer remain)?  (no secondary `error` shifts) -/
+def canMatch (g : Grammar) (an : Analysis) (la : Nat) (full : List Nat) :
+    Nat → List PSet → Nat → Nat → Bool
+  | 0, _, _, _ => false
+  | fuel + 1, cpl, s, need =>
+    if need = 0 then true else
+    match full[s]? with
+    | none => true                                   -- everything incl. the end marker was shifted
+    | some t =>
+      if hasTrans g (cpl.getLastD default).items t then
+        canMatch g an la full fuel (cpl ++ [gotoSet g an la cpl t (some s) full[s + 1]?]) (s + 1) (need - 1)
+      else false
+
+/-- C08 oracle, straight from the statement: the costs of all *simple* recoveries of the
+first error at token `k` (parse list `pl` = sets 0..k): go back to a set `b ≤ k` containing
+`. error` (cost `k - b`), shift `error`, skip forward to a token `s ≥ k` (cost `s - k`) from
+which `rmatch` tokens (or all the rest) can be shifted. -/
+def simpleRecoveryCosts (g : Grammar) (an : Analysis) (la rmatch : Nat) (full : List Nat)
+    (pl : List PSet) (k : Nat) : List Nat :=
+  (List.range (k + 1)).flatMap fun b =>
+    if !hasTrans g (pl.getD b default).items g.errT then [] else
+    let head := pl.take (b + 1)
+    let errSet : PSet := { term := some g.errT, tok := none, items := nextSet g (fun _ _ => true) (psItems head) g.errT }
+    let cpl := head ++ [errSet]
+    (List.range (full.length - k)).filterMap fun d =>
+      let s := k + d
+      if canMatch g an la full (full.length + 2) cpl s (max rmatch 1) then some ((k - b) + d) else none
+
+def simpleRecoveryMin (g : Grammar) (an : Analysis) (la rmatch : Nat) (full : List Nat)
+    (pl : List PSet) (k : Nat) : Option Nat :=
+  match simpleRecoveryCosts g an la rmatch full pl k with
+  | [] => none
+  | c :: cs => some (cs.foldl min c)
+
+end Yaep
